@@ -17,8 +17,8 @@ def _lev_half(a, b):
 def _df():
     import pandas as pd
     return pd.DataFrame({
-        "TRAV": ["TRAV1-1*01", "TRAV5*01", "TRAV1-1*01", "TRAV12-2*01"], "CDR3A": ["CAVRDSNYQLIW", "CAVRDSNYKLIW", "CAVDSNYQLIW", "CAVRDSNYQLIW"],
-        "TRBV": ["TRBV6-1*01", "TRBV9*01", "TRBV6-1*01", "TRBV20-1*01"], "CDR3B": ["CASSLGQAYEQYF", "CASSLGQAYEQFF", "CASSLGAYEQYF", "CASSLGQAYEQYF"],
+        "TRAV": ["TRAV1-1*01", "TRAV1-1*01", "TRAV1-1*01", "TRAV12-2*01"], "CDR3A": ["CAVRDSNYQLIW", "CAVRDSNYKLIW", "CAVDSNYQLIW", "CAVRDSNYQLIW"],
+        "TRBV": ["TRBV6-1*01", "TRBV6-1*01", "TRBV6-1*01", "TRBV20-1*01"], "CDR3B": ["CASSLGQAYEQYF", "CASSLGKAYEQYF", "CASSLGAYEQYF", "CASSLGQAYEQYF"],
         "group": ["g1", "g2", "g1", "g2"], "feat": ["x", "x", "y", "x"], "feat2": ["u", "v", "u", "u"]}, index=[4, 5, 6, 7])
 
 
@@ -31,6 +31,24 @@ def _raw_df():
     import pandas as pd
     return pd.DataFrame({"TRAV": ["TCRAV1S1", None], "CDR3A": ["AVRDSNYQLI", "CAVRW"], "TRBV": ["bv13*1", "TRBV9*01"], "CDR3B": ["CASSF", None],
                          "TRBJ": ["bj1.5*1", "junk"], "Epitope": ["gilgfvftl", "x1"], "MHCA": ["HLA-A2", None], "other": [1, 2]}, index=[3, 9])
+
+
+_FIX = {}
+
+
+def fixtures():
+    """Long-lived objects a user would build once and keep using: created at the start of every history (in the throw-away
+    child), before any operation runs, so that later operations can be observed to disturb them."""
+    if not _FIX:
+        from pyrepseq.nn import SymdelDB, LookupDB
+        from pyrepseq.metric import WeightedLevenshtein
+        from pyrepseq.metric.tcr_metric import Cdr3Levenshtein, CdrLevenshtein
+        _FIX["cdr3lev_a3"] = Cdr3Levenshtein(alpha_weight=3, insertion_weight=2)
+        _FIX["cdrlev_b2"] = CdrLevenshtein(beta_weight=2, cdr2_weight=3)
+        _FIX["wlev_123"] = WeightedLevenshtein(1, 2, 3)
+        _FIX["symdeldb"] = SymdelDB(list(SEQS), 2)
+        _FIX["lookupdb"] = LookupDB(list(SEQS))
+    return _FIX
 
 
 def ops():
@@ -148,6 +166,19 @@ def ops():
     lazy("seqs_to_regex", lambda: (prs.seqs_to_regex, (["CAS", "C-T", "CAT"],), {"align": False}))
     lazy("seqs_to_consensus", lambda: (prs.seqs_to_consensus, (["CAS", "CAT", "CWT"],), {"align": False}))
     lazy("ensure_numpy", lambda: (prs.ensure_numpy, (pd.Series(SEQS),), {}))
+    # ---- long-lived objects (built before the history starts, see fixtures())
+    lazy("fixture-Cdr3Levenshtein-cdist", lambda: (fixtures()["cdr3lev_a3"].calc_cdist_matrix, (_df(), _df().iloc[:2]), {}))
+    lazy("fixture-CdrLevenshtein-pdist", lambda: (fixtures()["cdrlev_b2"].calc_pdist_vector, (_df(),), {}))
+    lazy("fixture-WeightedLevenshtein-cdist", lambda: (fixtures()["wlev_123"].calc_cdist_matrix, (list(SEQS), list(SEQS2)), {}))
+    lazy("fixture-SymdelDB-lookup", lambda: (fixtures()["symdeldb"].lookup, (list(SEQS2),), {}))
+    lazy("fixture-SymdelDB-lookup-hamming", lambda: (fixtures()["symdeldb"].lookup, (list(SEQS),), {"custom_distance": "hamming"}))
+    lazy("fixture-LookupDB-lookup-k2", lambda: (fixtures()["lookupdb"].lookup, (list(SEQS2),), {"max_edits": 2}))
+    lazy("fixture-LookupDB-lookup-k1-custom", lambda: (fixtures()["lookupdb"].lookup, (list(SEQS2),), {"max_edits": 1, "custom_distance": _lev_half}))
+    lazy("new-Cdr3Levenshtein-default-cdist", lambda: (__import__("pyrepseq").metric.tcr_metric.Cdr3Levenshtein().calc_cdist_matrix, (_df(), _df()), {}))
+    lazy("new-WeightedLevenshtein-312-pdist", lambda: (WeightedLevenshtein(3, 1, 2).calc_pdist_vector, (list(SEQS),), {}))
+    lazy("multimerge-index-suffixes", lambda: (prs.multimerge, ([pd.DataFrame({"v": [3, 4]}, index=[1, 2]), pd.DataFrame({"v": [5, 6]}, index=[2, 3])], "index", ["a", "b"]), {"how": "inner"}))
+    lazy("powerlaw_mle_alpha-exact-bounds", lambda: (prs.powerlaw_mle_alpha, ([1, 1, 2, 3, 7, 1],), {"method": "exact", "bounds": [1.5, 2.0]}))
+    lazy("hierarchical_clustering-empty-kws", lambda: (prs.hierarchical_clustering, (list(SEQS),), {"linkage_kws": {}, "cluster_kws": {"t": 2}}))
     # ---- plotting
     lazy("rankfrequency", lambda: (P.rankfrequency, (np.array([3.0, 1.0, float("nan"), 2.0]),), {"ax": fig_ax(), "normalize_y": True}))
     lazy("labels_to_colors_hls", lambda: (P.labels_to_colors_hls, (["a", "b", "a", "c"],), {"min_count": 2}), seed=17)
